@@ -42,13 +42,25 @@ def run_sharded(pid, tier, jobs, only):
     t0 = time.time()
     procs = []
     tmp = tempfile.mkdtemp(prefix=f"yv_{pid}_", dir="/var/tmp")
-    for i in range(jobs):
+
+    def spawn(i, retry=0):
         env = dict(os.environ, VERIF_SHARD=f"{i}/{jobs}", VERIF_EVIDENCE_DIR=os.path.join(tmp, f"s{i}"), VERIF_TIER=tier)
+        if retry:
+            env["VERIF_Z3_SEED"] = str(retry)
         cmd = [sys.executable, "-m", "yv.run", pid, "--tier", tier, "--jobs", "1"] + (["--only", only] if only else [])
-        procs.append(subprocess.Popen(cmd, env=env, stdout=subprocess.PIPE, stderr=subprocess.STDOUT, text=True, cwd=verif))
-    codes, evs = [], []
+        return subprocess.Popen(cmd, env=env, stdout=subprocess.PIPE, stderr=subprocess.STDOUT, text=True, cwd=verif)
+
+    for i in range(jobs):
+        procs.append(spawn(i))
+    codes, evs, hung = [], [], 0
     for i, p in enumerate(procs):
         out, _ = p.communicate()
+        if p.returncode == 75:
+            # the solver ignored its timeout (engine/watchdog.py): one more attempt with another solver seed
+            hung += 1
+            print(f"[{pid}] shard {i}: solver call exceeded its budget, shard is re-run once", flush=True)
+            p = spawn(i, retry=1)
+            out, _ = p.communicate()
         codes.append(p.returncode)
         lines = out.splitlines()
         for ln in lines:
@@ -73,7 +85,8 @@ def run_sharded(pid, tier, jobs, only):
             if a not in ev["assumptions"]:
                 ev["assumptions"].append(a)
     ev["coverage"]["samples"] = ev["coverage"].get("samples", [])[:10]
-    ev["coverage"]["shards"] = {"n": jobs, "exit_codes": codes, "rule": "cells partitioned by crc32(key) % n; one-off parts in shard 0"}
+    ev["coverage"]["shards"] = {"n": jobs, "exit_codes": codes, "rule": "cells partitioned by crc32(key) % n; one-off parts in shard 0",
+                                "shards_rerun_after_solver_hang": hung}
     ev["wall_s"] = round(time.time() - t0, 2)
     os.makedirs(evdir, exist_ok=True)
     with open(os.path.join(evdir, f"{pid}.json"), "w") as f:
@@ -112,8 +125,14 @@ def main():
         if not getattr(mod, "SHARDABLE", False):
             jobs = 1
         jobs = max(1, min(jobs, (os.cpu_count() or 2) // 2))
-    if jobs and jobs > 1:
-        sys.exit(run_sharded(pid, tier, jobs, a.only))
+    if "VERIF_SHARD" not in os.environ:
+        # always through child processes (also for one shard): a child whose solver call ignores its timeout is re-run by the parent
+        sys.exit(run_sharded(pid, tier, max(1, jobs or 1), a.only))
+    if os.environ.get("VERIF_Z3_SEED"):
+        import z3
+
+        for k in ("smt.random_seed", "sat.random_seed", "nlsat.seed"):
+            z3.set_param(k, int(os.environ["VERIF_Z3_SEED"]))
     chk = harness.Check(pid, tier, seed, getattr(mod, "REPLAYERS", {}))
     try:
         code = mod.run(chk, only=a.only)
